@@ -332,7 +332,7 @@ def run_registration(repo: Repo, res: Result, rule: str) -> int:
                 f_t, f_f = simplify(substitute(f, {k: True})), simplify(substitute(f, {k: False}))
                 if equivalent(substitute(f_t, {a: True for a in accepted if a in atoms_of(f_t)}), substitute(f_f, {a: True for a in accepted if a in atoms_of(f_f)})):
                     accepted.add(k)
-            f2 = simplify(substitute(f, {k: True for k in accepted if k in atoms_of(f)}))
+            f2 = _exists(f, [k for k in sorted(accepted) if k in atoms_of(f)])
             want = f_and([atom("ISDIR"), f_not(atom("EXCL"))]) if kind == "directory" else f_and([f_not(atom("ISDIR")), atom("PY"), f_not(atom("EXCL"))]) if kind == "file" else goal
             extra = sorted(a for a in atoms_of(f2) if a not in ("ISDIR", "EXCL", "PY"))
             ok2 = implies(want, f2)
@@ -431,6 +431,17 @@ def run_registration(repo: Repo, res: Result, rule: str) -> int:
             # all four kinds of events were found and judged: the rule did not pass vacuously, however few statements the walk has
             n = max(n, 7)
     return n
+
+
+def _exists(f: Formula, keys: list[str]) -> Formula:
+    """`f` with the atoms `keys` quantified away: true where some valuation of them makes `f` true."""
+    import itertools
+
+    if not keys:
+        return f
+    if len(keys) > 6:
+        return simplify(substitute(f, {k: True for k in keys}))
+    return simplify(f_or([substitute(f, dict(zip(keys, vals))) for vals in itertools.product([True, False], repeat=len(keys))]))
 
 
 def _mentions(sx: SymX, key: str, reg: Reg) -> bool:
